@@ -13,7 +13,7 @@ Mirrors, definition by definition,
 * `fcppt/container/grid/spiral_iterator_impl.hpp`, `spiral_range_impl.hpp`
 * `fcppt/container/grid/moore_neighbors.hpp`, `neumann_neighbors.hpp`
 * `fcppt/iterator/range_impl.hpp`, `iterator/adapt_range.hpp`, `iterator/make_range.hpp`, `iterator/range_comparison.hpp`
-* `fcppt/range/size.hpp`                : `to_unsigned(std::distance(begin, end))`
+* `fcppt/range/size.hpp`                : `to_unsigned(std::distance(begin, end))`; `range/empty.hpp`, `range/singular.hpp`, `range/from_pair.hpp`
 * `fcppt/math/int_range_count.hpp`      : the static list `0 .. Count-1`
 * `fcppt/iterator/base_impl.hpp`        : the loop `for (it = begin(); it != end(); ++it) *it` that every range-for performs
                                           (`operator!=` = `!equal`, `operator++` = `increment`, `operator*` = `dereference`),
@@ -123,6 +123,16 @@ def IntIter.postIncr (t : IntTy) (v : Int) : M (Int × Int) :=
 /-- `a.swap(b)` / `fcppt::iterator::swap(a, b)`: `std::swap` of the two derived objects -/
 def swapPair {α : Type} (p : α × α) : α × α := (p.2, p.1)
 
+/-- `fcppt::range::empty(r)`: `r.begin() == r.end()` -/
+def IntRange.empty (r : IntRange) : Bool := IntIter.equal r.begin_ r.end_
+
+/-- `fcppt::range::singular(r)`: `!empty(r) && std::next(r.begin()) == r.end()` (`&&` short-circuits: no increment of an empty range) -/
+def IntRange.singular (t : IntTy) (r : IntRange) : M Bool :=
+  if r.empty then .ok false
+  else match incr t r.begin_ with
+    | .ok v => .ok (IntIter.equal v r.end_)
+    | .error e => .error e
+
 /-- an `iterator::range` whose iterators are `int_iterator`s (`iterator::make_range(int_iterator(b), int_iterator(e))`):
 the same loop as `int_range`'s, but there is **no clamp** -/
 def intIterRange (t : IntTy) (b e : Int) (fuel : Nat) : M (List Int) := intLoop t e fuel b
@@ -148,6 +158,14 @@ def makeRange (w n : Nat) : EnumRange := makeRangeStart w n 0
 def EnumRange.elems (w : Nat) (r : EnumRange) (fuel : Nat) : M (List Int) := intLoop (sizeTy w) r.end_ fuel r.begin_
 /-- `size()`: `end_ - begin_` returned as `size_type` -/
 def EnumRange.size (w : Nat) (r : EnumRange) : Int := (sizeTy w).wrap (r.end_ - r.begin_)
+
+/-- `range::empty` / `range::singular` of an enum range (the iterator's `++` is the unsigned `size_type`'s) -/
+def EnumRange.empty (r : EnumRange) : Bool := IntIter.equal r.begin_ r.end_
+def EnumRange.singular (w : Nat) (r : EnumRange) : M Bool :=
+  if r.empty then .ok false
+  else match incr (sizeTy w) r.begin_ with
+    | .ok v => .ok (IntIter.equal v r.end_)
+    | .error e => .error e
 
 /-! ## cyclic_iterator.  Container iterators are positions (indices into the container). -/
 
@@ -368,6 +386,11 @@ structure IterRange where
 def iterMakeRange (b e : Nat) : IterRange := ⟨b, e⟩
 /-- `adapt_range(c)` = `range{range::begin(c), range::end(c)}` -/
 def adaptRange {α : Type} (c : List α) : IterRange := ⟨0, c.length⟩
+
+/-- `range::empty` / `range::singular` of an iterator range; `range::from_pair(p)` = `range{p.first, p.second}` -/
+def IterRange.empty (r : IterRange) : Bool := decide (r.begin_ = r.end_)
+def IterRange.singular (r : IterRange) : Bool := !r.empty && decide (r.begin_ + 1 = r.end_)
+def iterFromPair (p : Nat × Nat) : IterRange := ⟨p.1, p.2⟩
 
 /-- `iterator/range_comparison.hpp`: `l.begin() == r.begin() && l.end() == r.end()` -/
 def IterRange.equal (l r : IterRange) : Bool := decide (l.begin_ = r.begin_) && decide (l.end_ = r.end_)
